@@ -798,6 +798,7 @@ fn replay(ctx: &Ctx, c: &Value, rep: &mut Report) {
 }
 
 fn main() {
+    tune_malloc();
     let ctx = Ctx::from_args("C22").with_level("fault_enumeration");
     let max_len = ctx.tier.pick(2usize, 3usize);
     let wall_cap = Duration::from_secs(
